@@ -74,7 +74,7 @@ func (pt Pt) Node() ast.Node {
 
 func noReturnCall(info *types.Info, call *ast.CallExpr) bool {
 	if id, ok := ast.Unparen(call.Fun).(*ast.Ident); ok {
-		if b, ok := info.Uses[id].(*types.Builtin); ok && b.Name() == "panic" {
+		if b, ok := info.Uses[id].(*types.Builtin); ok && objName(b) == "panic" {
 			return true
 		}
 	}
@@ -980,7 +980,7 @@ func isErrorType(t types.Type) bool {
 		return false
 	}
 	nt, ok := t.(*types.Named)
-	return ok && nt.Obj().Pkg() == nil && nt.Obj().Name() == "error"
+	return ok && nt.Obj().Pkg() == nil && objName(nt.Obj()) == "error"
 }
 
 // ---------------------------------------------------------------------------
